@@ -47,6 +47,15 @@ def params_of(eio_call, connects):
             json.dumps([c[0] for c in connects]) if connects else '*']
 
 
+class Runaway(BaseException):
+    """The effort does not end (e.g. shutdown() no longer stops it): the
+    harness stops the execution; the trace ends in an event no state of
+    Reconnect.tla enables."""
+
+
+LIMIT = 300
+
+
 def run_sync(sc):
     w = fakeeio.World()
     cfg = sc.cfg
@@ -81,6 +90,8 @@ def run_sync(sc):
 
     def wait(ev, timeout=None):
         if ev is c._reconnect_abort:
+            if len(events) > LIMIT:
+                raise Runaway()
             ans, outcome = pattern.pop(0) if pattern else ('abort', None)
             events.append({'ev': 'Backoff', 'd': ms(timeout), 'answer': ans})
             if ans == 'abort':
@@ -119,7 +130,9 @@ def run_sync(sc):
                 ok = False
             events.append({'ev': 'Connect', 'ok': ok, 'nns': len(NSS),
                            'params': params_of(c.eio.connect_calls[n0],
-                                               connects_sent())})
+                                               connects_sent())
+                           if len(c.eio.connect_calls) > n0
+                           else ['?no-attempt'] * 5})
         app_connect()
 
         def lose(cause):
@@ -182,22 +195,29 @@ def run_sync(sc):
             events.append({'ev': 'End', 'how': how})
             return how
 
-        task = lose(sc.cause)
-        how = None
-        if task is not None:
-            how = run_effort(task)
-        if sc.then == 'lose_again' and how == 'success':
-            pattern[:] = [('timeout', 'ok')]
-            t2 = lose('transport_error')
-            if t2 is not None:
-                run_effort(t2)
-        elif sc.then == 'reconnect_manually' and how in ('gaveup',
-                                                         'aborted'):
-            app_connect()
-            pattern[:] = [('timeout', 'ok')]
-            t2 = lose('transport_error')
-            if t2 is not None:
-                run_effort(t2)
+        try:
+            task = lose(sc.cause)
+            how = None
+            if task is not None:
+                how = run_effort(task)
+            if sc.then == 'lose_again' and how == 'success':
+                pattern[:] = [('timeout', 'ok')]
+                t2 = lose('transport_error')
+                if t2 is not None:
+                    run_effort(t2)
+            elif sc.then == 'reconnect_manually' and how in ('gaveup',
+                                                             'aborted'):
+                app_connect()
+                pattern[:] = [('timeout', 'ok')]
+                t2 = lose('transport_error')
+                if t2 is not None:
+                    run_effort(t2)
+        except Runaway:
+            for e in events:
+                e.pop('_n0', None)
+                if e.get('ev') == 'Attempt' and e['params'] is None:
+                    e['params'] = ['?', '?', '?', '?', '?']
+            events.append({'ev': 'Runaway'})
     finally:
         fakeeio.ScriptedEvent.wait = orig_wait
     return events
@@ -253,7 +273,9 @@ def run_async(sc):
                 ok = False
             events.append({'ev': 'Connect', 'ok': ok, 'nns': len(NSS),
                            'params': params_of(c.eio.connect_calls[n0],
-                                               connects_sent())})
+                                               connects_sent())
+                           if len(c.eio.connect_calls) > n0
+                           else ['?no-attempt'] * 5})
         await app_connect()
 
         async def lose(cause):
@@ -285,6 +307,8 @@ def run_async(sc):
             next_step()
 
             async def connect(*a, **k):
+                if len(events) > LIMIT:
+                    raise Runaway()
                 # the back-off that just ended
                 events.append({'ev': 'Backoff',
                                'd': ms(loop.time() - t['t0']),
@@ -361,7 +385,14 @@ def run_async(sc):
             if t2 is not None:
                 await run_effort(t2)
     try:
-        loop.run_until_complete(main())
+        try:
+            loop.run_until_complete(main())
+        except Runaway:
+            for e in events:
+                e.pop('_n0', None)
+                if e.get('ev') == 'Attempt' and e['params'] is None:
+                    e['params'] = ['?', '?', '?', '?', '?']
+            events.append({'ev': 'Runaway'})
         pend = [t for t in asyncio.all_tasks(loop) if not t.done()]
         for t in pend:
             t.cancel()
